@@ -175,7 +175,9 @@ def run_compile_fail(repo, tier, R, rule="C18-R5", directory="cf"):
                 for d in diags:
                     if meta["code"] and d["code"] == meta["code"] and (marked + 1) in d["lines"]:
                         hit = d
-                    if meta["message"] and meta["message"] in d["message"] and (marked + 1) in d["lines"]:
+                    # a macro diagnostic: any error whose primary span is on the marked line counts (the twin, which differs
+                    # only in that line, compiles); the wording is recorded, not demanded
+                    if meta["message"] and (marked + 1) in d["lines"]:
                         hit = d
                 R.check(rc != 0 and hit is not None, rule, name + "|rejected", "rejected with %s on the marked line: %s" % (want, (hit or {}).get("message", "")[:100]),
                         "the unsound client program %s is %s; expected error %s with its primary span on the marked line %d. Diagnostics: %s" % (
